@@ -162,13 +162,30 @@ def present (table : List (String × Bool)) (res : J) : Option Bool :=
     | some _ => none
   | _ => none
 
+/-- `d[k] = v` on a Python dict: replace the value of member `k` where it occurs, else add the member at the end -/
+def setMember (k : String) (v : J) : List (String × J) → List (String × J)
+  | [] => [(k, v)]
+  | (k', x) :: rest => if k' = k then (k', v) :: rest else (k', x) :: setMember k v rest
+
+/-- the resolved resource keeps, in its `Condition` attribute, the condition's name as written (a name is not text
+    to normalise) -/
+def keepConditionName (original resolved : J) : J :=
+  match original, resolved with
+  | .obj okvs, .obj rkvs =>
+    match J.lookup "Condition" okvs with
+    | some (.str c) => .obj (setMember "Condition" (.str c) rkvs)
+    | _ => resolved
+  | _, _ => resolved
+
+def resolveResource (env : Env) (r : J) : Option J := (Spec.resolve env r).map (keepConditionName r)
+
 def resolveResources (env : Env) : List (String × J) → Option (List (String × J))
   | [] => some []
   | (k, r) :: rest => do
     let keep ← present env.conds r
     let tail ← resolveResources env rest
     if keep then
-      let v ← Spec.resolve env r
+      let v ← resolveResource env r
       pure ((k, v) :: tail)
     else pure tail
 
